@@ -18,6 +18,10 @@ def impl_call(case):
         from synphot.utils import merge_wavelengths
         a = None if case['a'] is None else np.array([O.fl(x) for x in case['a']])
         b = None if case['b'] is None else np.array([O.fl(x) for x in case['b']])
+        dt = case.get('dt')
+        if dt:      # the same numbers held in a narrower type (every value is exactly representable in it)
+            a, b = np.asarray(a).astype(dt[0]), np.asarray(b).astype(dt[1])
+            assert [float(v) for v in a] == [O.fl(x) for x in case['a']] and [float(v) for v in b] == [O.fl(x) for x in case['b']]
         out = guarded(lambda: merge_wavelengths(a, b))
         if 'ok' in out:
             out['_swap'] = guarded(lambda: merge_wavelengths(b, a))
@@ -258,6 +262,22 @@ def oracle_default(rep, case, out):
 def gen_merge(rng, nmax):
     """a pair of sets in every arrangement a caller may hold them in: the function is documented for array-likes "in the
     same unit", not for sorted ones, so either input may arrive descending, in arbitrary order or with repeated points"""
+    if rng.random() < 0.12:
+        # one set held as integers or in single precision (a grid from np.arange, a FITS column), of either relative
+        # length, the other in double precision with points the narrow type cannot hold
+        n1, n2 = rng.randint(1, nmax), rng.randint(1, nmax)
+        lo = rng.randint(100, 9000)
+        kind = rng.choice(['i8', 'i4', 'u2', 'f4'])
+        if kind == 'f4':
+            narrow = sorted({float(lo + i) + rng.choice([0.0, 0.25, 0.5]) for i in range(n1)})
+        else:
+            narrow = sorted({float(lo + rng.randint(0, 2 * n1)) for _ in range(n1)})
+        wide = sorted({float(lo - 2 + rng.randint(0, 2 * n1 + 4)) + rng.choice([0.0, 2.0 ** -20, 0.3, 0.5, 0.7, 1 - 2.0 ** -30])
+                       for _ in range(n2)})
+        c = {'op': 'merge', 'a': qs(narrow), 'b': qs(wide), 'dt': [kind, 'f8'], '_nospell': 1}
+        if rng.random() < 0.5:
+            c['a'], c['b'], c['dt'] = c['b'], c['a'], c['dt'][::-1]
+        return c
     c = gen_merge_sorted(rng, nmax)
     if c['a'] is None or c['b'] is None:
         return c
